@@ -312,7 +312,10 @@ def run(ctx):
     tags = [1, 8, 14, 15, 33, 40, 216, 219, 192, 193, 195, 196, 197, 199, 0, 2, 255]
     mal += [bytes([r.choice(tags)]) + bytes(r.getrandbits(8) for _ in range(r.randrange(0, 24))) for _ in range(ctx.scale(3000, 60000))]
     mal += [bytes.fromhex(x) for x in ("c401c102", "c402c1000000000102", "c701c10001 02".replace(" ", ""), "c001", "c003c1", "c101", "c402c100000000010005", "")]
-    ctx.corr([("xdlms_from_bytes", b) for b in dec + mal], impl, "from_bytes", decisive=lambda op, a: True)
+    # inputs whose tag byte belongs to an ACSE APDU (a flipped bit can produce one) are dispatched to the ACSE decoders, which
+    # this property's model does not contain (error 100+k); they are C02's and C07's subject and are skipped here
+    ctx.corr([("xdlms_from_bytes", b) for b in dec + mal], impl, "from_bytes", decisive=lambda op, a: True,
+             skip_model=lambda m: isinstance(m, E) and 100 <= m.code < 120)
     # ---- search: the implementation against the extracted standard encoder and the inverse law
     allv = vals + extra
     spec = lib.run_model([("spec_apdu", v) for v in allv])
